@@ -282,6 +282,10 @@ func runHistory(hc histCase) {
 			run.Evaluations++
 			if err != nil {
 				run.Count("init:unparseable-refused")
+				if *hc.Init != "" {
+					run.Case(run.NewID(), "HB "+common.Hex(*hc.Init)+" 0 MODE 600", "LOADERR")
+					run.Evaluations--
+				}
 				return
 			}
 			run.Count("init:unparseable-but-loaded")
@@ -295,6 +299,16 @@ func runHistory(hc histCase) {
 			}
 			if _, _, bad := readDoc(path); bad {
 				run.OracleFail(id, "file-unparseable", "after a save the leniently loaded config is still not one JSON document", hc)
+			}
+			// the model reads these bytes the way encoding/json does (last duplicate wins, what follows
+			// the first value is ignored): results and the exact bytes written
+			if raw, err := os.ReadFile(path); err == nil && *hc.Init != "" {
+				sum := md5hex(string(raw))
+				run.Case(run.NewID(), fmt.Sprintf("HB %s 2 P %s %s %s %s - G %s %s MODE %o", common.Hex(*hc.Init), common.Hex("lenient.example"),
+					common.Hex(want.Username), common.Hex(want.Password), common.Hex(want.RefreshToken), common.Hex("lenient.example"), credStr(want), hc.Mode),
+					fmt.Sprintf("RES ok %s MODE 600 BYTES %s %s", credStr(want), sum, sum))
+				run.Count("file-bytes:lenient-read-by-model")
+				run.Evaluations--
 			}
 			if fs2, err := credentials.NewFileStore(path); err != nil {
 				run.OracleFail(id, "reload", "the saved file does not load: "+err.Error(), hc)
@@ -330,6 +344,10 @@ func runHistory(hc histCase) {
 		}
 		if judged {
 			run.Case(id, "H "+initTok+" 0", "LOADERR")
+		}
+		if hc.Init != nil && *hc.Init != "" {
+			run.Case(run.NewID(), "HB "+common.Hex(*hc.Init)+" 0 MODE 600", "LOADERR")
+			run.Evaluations--
 		}
 		return
 	}
@@ -702,6 +720,34 @@ func runHistory(hc histCase) {
 	} else {
 		run.Count("unjudged:case-variant-field")
 		run.Evaluations++
+	}
+	// the same history judged by the model that READS THE BYTES of the file itself
+	// (Model/JsonRead.v): no harness-side classification of the document
+	{
+		initMode, finalMode := "-", "-"
+		initHex := "ABSENT"
+		if hc.Init != nil {
+			m := hc.Mode
+			if m == 0 {
+				m = 0o644
+			}
+			initMode = fmt.Sprintf("%o", m)
+			initHex = common.Hex(*hc.Init)
+			if *hc.Init == "" {
+				initHex = "EMPTY"
+			}
+		}
+		if st, err := os.Stat(path); err == nil {
+			finalMode = fmt.Sprintf("%o", st.Mode().Perm())
+		}
+		line := fmt.Sprintf("HB %s %d %s MODE %s", initHex, len(modelOps), strings.Join(modelOps, " "), initMode)
+		if hc.DisablePut {
+			line += " DP 1"
+		}
+		line = strings.Join(strings.Fields(line), " ")
+		run.Case(run.NewID(), line, fmt.Sprintf("RES %s MODE %s BYTES %s", strings.Join(results, " "), finalMode, strings.Join(byteSums, " ")))
+		run.Count("file-bytes:read-by-model")
+		run.Evaluations--
 	}
 	if nontrivial {
 		js := fmt.Sprintf("%v|%v", hc.Init != nil, hc.Ops)
